@@ -29,8 +29,9 @@ RULE = ("four case kinds in rotation 3:1:4:2 - split: texts of 0-40 (some 200) c
         "preseek=False at a cursor; jsonl: JSON Lines files of 0-8 lines (ints, strings with multi-byte characters, "
         "corrupt, blank and white-space lines, \\n/\\r\\n endings, 15% padded to 1-3 blocks of 4096 bytes with a "
         "\\r\\n or a multi-byte character across a block edge), drained forward and in reverse, ignore_errors "
-        "on/off; thorough adds three complete small scopes (every text over {a,\\n,\\r,\\x85,U+2028} up to length 5; "
-        "every content over {a,\\n,\\r} up to length 7 with block sizes 1,2,3,5,default; every 1-3 byte string over "
+        "on/off; thorough adds four complete small scopes (every text over {a,\\n,\\r,\\x85,U+2028} up to length 5; "
+        "every content over {a,\\n,\\r} up to length 7 with block sizes 1,2,3,5,default; every JSON Lines file of up "
+        "to 3 lines over 5 line kinds x 2 terminators, strict and lenient; every 1-3 byte string over "
         "the UTF-8 table's boundary bytes through the primitives); one case in eleven (prim) observes the CPython "
         "primitives of the model directly (bytes.splitlines, file iteration, lstrip, utf-8 decode); non-trivial = "
         "split/indent: >=2 breaks one of which is not \\n; rev: >=2 lines and a block edge inside the content; "
@@ -166,6 +167,21 @@ def sweep(tier):
             k += 1
             yield {"k": "rev", "runs": [[list(t), 1]], "mode": REV_MODES[k % len(REV_MODES)], "pos": None,
                    "bs": [[1, "pos"], [2, "kw"], [3, "kw"], [5, "pos"], [4096, "default"]]}
+    # every JSON Lines file of up to 3 lines over {int, padded string, corrupt, empty, white space} x {\n, \r\n},
+    # with and without the final terminator, strict and ignore_errors
+    toks = [[49], [32, 34, 97, 34, 32], [120], [], [32, 9]]
+    k = 0
+    for n in range(0, 4):
+        for body in itertools.product(range(len(toks)), repeat=n):
+            for terms in itertools.product([[10], [13, 10]], repeat=n):
+                for last_open in ([False, True] if n else [False]):
+                    content = []
+                    for i in range(n):
+                        content += toks[body[i]] + ([] if (last_open and i == n - 1) else terms[i])
+                    for ie in (False, True):
+                        k += 1
+                        yield {"k": "jsonl", "runs": [[content, 1]] if content else [],
+                               "mode": JSONL_MODES[k % len(JSONL_MODES)], "ie": ie}
     # the UTF-8 decoder (and the other primitives) on every 1-, 2-, 3-byte string over the boundary bytes of the
     # codec's table (3-byte strings: non-ASCII lead), and the 4-byte boundary combinations
     edge = [0x00, 0x0a, 0x0d, 0x20, 0x41, 0x7f, 0x80, 0x8f, 0x90, 0x9f, 0xa0, 0xbf, 0xc0, 0xc1, 0xc2, 0xdf, 0xe0, 0xe1,
